@@ -184,6 +184,7 @@ func genCommon(t *rapid.T, mode string) Case {
 	c.Rich = rapid.IntRange(0, 2).Draw(t, "rich") == 2
 	c.Named = rapid.IntRange(0, 3).Draw(t, "named") == 3
 	c.Used = rapid.IntRange(0, 2).Draw(t, "used") == 0
+	c.OwnComma = rapid.IntRange(0, 2).Draw(t, "own-separator-on-the-callers-csv-object") == 0
 	if rapid.IntRange(0, 3).Draw(t, "writer-to-source-fails") == 0 {
 		c.SrcFail = 1 + rapid.IntRange(0, len(txt)).Draw(t, "source-fails-after")
 		c.SrcErr = rapid.SampledFrom([]string{"", "unexpected-eof"}).Draw(t, "source-error")
@@ -448,6 +449,9 @@ func Classify(c Case) (bool, []string) {
 	}
 	if c.Chunk > 0 {
 		add("variant:chunked-stream")
+	}
+	if c.OwnComma && c.Kind == kCSV && (c.Mode == "produce" && c.Opts.Comma == 0 || c.Mode == "consume" && c.Opts.WComma == 0) {
+		add("the caller's own csv object carries its own separator")
 	}
 	if c.SrcFail > 0 && (c.Mode == "produce" && c.Kind == kFrom || c.Mode == "agree") {
 		add("io.WriterTo source reports an error")
